@@ -17,11 +17,11 @@ def build(tier):
         for s in range(ns):
             name = f"{fn}_shape{s}"
             pre = [f"0 <= dest_i < {nd}"] + (["dest_i < 8 or dest_i == 11"] if q else [])
-            src += hgen.cond(name, "dest_i: int, write_into: bool, cwd_c: bool", pre, f"L.{fn}({s}, dest_i, write_into, cwd_c)", sig="hb.KEY")
+            src += hgen.cond(name, "dest_i: int, write_into: bool, cwd_c: bool, legacy: bool", pre, f"L.{fn}({s}, dest_i, write_into, cwd_c, legacy)", sig="hb.KEY")
             conds += [Cond(name, "prop", T, group=fn), Cond(name + "__twin", "twin", 60, group=fn)]
     for fn in ("list_recursive", "remove"):
         name = fn
-        src += hgen.cond(name, "shape_i: int, cwd_c: bool, arg_i: int", [f"0 <= shape_i < {ns}", "0 <= arg_i <= 2"], f"L.{fn}(shape_i, cwd_c, arg_i)", sig="hb.KEY")
+        src += hgen.cond(name, "shape_i: int, cwd_c: bool, arg_i: int, legacy: bool", [f"0 <= shape_i < {ns}", "0 <= arg_i <= 2"], f"L.{fn}(shape_i, cwd_c, arg_i, legacy)", sig="hb.KEY")
         conds += [Cond(name, "prop", T, group=fn), Cond(name + "__twin", "twin", 60, group=fn)]
     src += "\nL.upload(4, 2, True, True); L.download(5, 1, False, False); L.list_recursive(5, True, 0); L.remove(4, False, 1)\n"
     C = aioftp.Client
@@ -29,11 +29,12 @@ def build(tier):
         pid="C09", source=src, conds=conds,
         functions_encoded=[C.upload, C.download, C.list, C.remove, C.make_directory, C.exists, C.stat, C.is_file, C.is_dir, C.remove_file, C.remove_directory, C.upload_stream, C.download_stream],
         bounds={
-            "trees": f"{ns} source tree shapes up to 3 levels deep (empty directory, empty file, nested directories, a single file, names with spaces, the same name on two levels): {L.SHAPES}",
+            "trees": f"{ns} source tree shapes up to 3 levels deep (empty directory, empty file, nested directories, a single file, names with spaces, the same name on two levels, a directory containing an entry of its own name): {L.SHAPES}",
+            "server kind": "the model peer answers MLST/MLSD (as aioftp's server) or, symbolic choice, is a LIST-only server (MLST/MLSD -> 502; LIST in ls -l format): the client's stat / list fallbacks run",
             "destination": f"{L.DESTS}" + (" (quick: the first 8 and 'x/foo')" if q else "") + "; write_into on/off; remote working directory / or /c",
             "list / remove": "each shape, asked through three spellings of the path, from two working directories; a sibling tree with a common name prefix must survive remove",
         },
-        outside=["trees deeper than 3 levels / more than 2 entries per directory", "a real local filesystem (the local side is MemoryPathIO; '..' in local paths excluded)", "symbolic links",
+        outside=["trees deeper than 3 levels / more than 2 entries per directory", "a real local filesystem (the local side is MemoryPathIO; '..' in local paths excluded)", "symbolic links", "'..' inside a remote destination on a LIST-only server (stat falls back to finding '..' in a listing)",
                  "the wire level below Client.command / Client.get_stream (replaced by a model FTP peer here; C05, C06, C08 cover it)"],
         explanation=(
             "The real client methods upload, download, list(recursive), remove and everything they call (make_directory, exists, stat, is_file, is_dir, upload_stream, download_stream, remove_file, remove_directory, "
